@@ -20,7 +20,7 @@ EXPLANATION = 'price_supergradient reduces the property to gap = 0; the run eval
 
 
 def scenarios(seed, tier):
-    n = 250 if tier == 'quick' else 2500
+    n = 500 if tier == 'quick' else 3000
     rnd = random.Random(seed * 7919 + 18)
     for i in range(n):
         # every fifth case on a zone-aware grid, half of them across a daylight-saving switch (a repeated or missing local hour)
